@@ -57,6 +57,49 @@ pub fn has_bad_table_arity(t: &LuaType) -> bool {
     }
 }
 
+/// `has_bad_table_arity`, also looking through the origins of the aliases the type mentions
+pub fn bad_arity_deep(w: &World, t: &LuaType, depth: usize) -> bool {
+    if has_bad_table_arity(t) {
+        return true;
+    }
+    if depth == 0 {
+        return false;
+    }
+    let mut found = false;
+    let mut visit = |x: &LuaType| {
+        if let LuaType::Ref(id) = x
+            && let Some(decl) = w.db().get_type_index().get_type_decl(id)
+            && decl.is_alias()
+            && let Some(o) = decl.get_alias_ref()
+            && bad_arity_deep(w, o, depth - 1)
+        {
+            found = true;
+        }
+    };
+    walk(t, &mut visit);
+    found
+}
+
+fn walk(t: &LuaType, f: &mut dyn FnMut(&LuaType)) {
+    f(t);
+    match t {
+        LuaType::Array(a) => walk(a.get_base(), f),
+        LuaType::Tuple(tp) => tp.get_types().iter().for_each(|x| walk(x, f)),
+        LuaType::TableGeneric(ps) => ps.iter().for_each(|x| walk(x, f)),
+        LuaType::Object(o) => o.get_fields().values().for_each(|x| walk(x, f)),
+        LuaType::Union(u) => u.into_vec().iter().for_each(|x| walk(x, f)),
+        LuaType::DocFunction(func) => {
+            func.get_params().iter().for_each(|(_, x)| {
+                if let Some(x) = x {
+                    walk(x, f)
+                }
+            });
+            walk(func.get_ret(), f);
+        }
+        _ => {}
+    }
+}
+
 pub fn build_pool(w: &mut World, rng: &mut Rng, n: usize, report: &mut Report) -> Vec<PoolTy> {
     let mut names: Vec<String> = w.classes.clone();
     names.extend(w.aliases.iter().cloned());
@@ -240,7 +283,7 @@ pub fn run(args: &Args, report: &mut Report) {
             report.count(&format!("check_{law}_{}", if real.starts_with("panic") { "panic" } else { real.as_str() }));
             let input = json!({"decls": w.decl_text, "law": law, "case": text, "source": ser_any(&s), "compact": ser_any(&c), "op": "check"});
             if law_id != 0 && real != "ok" {
-                let class = if has_bad_table_arity(&s) || has_bad_table_arity(&c) { Some("table-generic-arity-not-2") } else { None };
+                let class = if bad_arity_deep(&w, &s, 6) || bad_arity_deep(&w, &c, 6) { Some("table-generic-arity-not-2") } else { None };
                 report.count(&format!("oracle_class:{}", class.unwrap_or("unclassified")));
                 push_failure(report, json!({"input": input, "what": format!("law `{law}` fails on the real checker: check_type_compact = {real} for {text}"), "class": class}));
             } else if real.starts_with("panic") {
